@@ -281,7 +281,10 @@ func returnedValue(ret *ssa.Return, i int) (ssa.Value, bool) {
 		return v, true
 	}
 	al, ok := u.X.(*ssa.Alloc)
-	if !ok || al.Heap {
+	if !ok {
+		return v, true
+	}
+	if al.Heap && (heapResultOK == nil || !heapResultOK(al)) {
 		return v, true
 	}
 	// find the last store to al in this block before the load
@@ -292,6 +295,9 @@ func returnedValue(ret *ssa.Return, i int) (ssa.Value, bool) {
 			break
 		}
 		if st, ok := in.(*ssa.Store); ok && st.Addr == ssa.Value(al) {
+			if ld, isLd := st.Val.(*ssa.UnOp); isLd && ld.Op == token.MUL && ld.X == ssa.Value(al) {
+				continue // `return err` with err the named result: *res = *res
+			}
 			last = st.Val
 		}
 	}
@@ -304,6 +310,9 @@ func returnedValue(ret *ssa.Return, i int) (ssa.Value, bool) {
 		for d := b.Idom(); d != nil; d = d.Idom() {
 			for j := len(d.Instrs) - 1; j >= 0; j-- {
 				if st, ok := d.Instrs[j].(*ssa.Store); ok && st.Addr == ssa.Value(al) {
+					if ld, isLd := st.Val.(*ssa.UnOp); isLd && ld.Op == token.MUL && ld.X == ssa.Value(al) {
+						continue
+					}
 					return st.Val, true
 				}
 			}
@@ -312,6 +321,11 @@ func returnedValue(ret *ssa.Return, i int) (ssa.Value, bool) {
 	}
 	return last, true
 }
+
+// heapResultOK tells whether a result cell whose address is taken may be read
+// like a spilled result: set by the checker to "its address only goes to a
+// deferred transaction finisher", which overwrites the cell only when it holds nil.
+var heapResultOK func(al *ssa.Alloc) bool
 
 // returnsOf lists the Return instructions of fn, without the recover block.
 func returnsOf(fn *ssa.Function) []*ssa.Return {
@@ -449,8 +463,44 @@ func nilEdges(fn *ssa.Function, same func(x ssa.Value) bool) []edge {
 	})
 }
 
+// sameValue matches v itself, or a load of a local variable cell (a named
+// result, a captured variable) that certainly still holds v: v was stored into
+// the cell, the store dominates the load, and no other store to the cell lies
+// between them. (With named results and a deferred call, `x, err = f()` goes
+// through the cell of err, and `if err != nil` tests a load of it.)
 func sameValue(v ssa.Value) func(ssa.Value) bool {
-	return func(x ssa.Value) bool { return x == v }
+	return func(x ssa.Value) bool {
+		if x == v {
+			return true
+		}
+		ld, ok := x.(*ssa.UnOp)
+		if !ok || ld.Op != token.MUL {
+			return false
+		}
+		al, ok := ld.X.(*ssa.Alloc)
+		if !ok {
+			return false
+		}
+		var stores []*ssa.Store
+		var mine *ssa.Store
+		for _, r := range realReferrers(al) {
+			if st, ok := r.(*ssa.Store); ok && st.Addr == ssa.Value(al) {
+				stores = append(stores, st)
+				if st.Val == v {
+					mine = st
+				}
+			}
+		}
+		if mine == nil || !instrDominates(mine, ld) {
+			return false
+		}
+		for _, st := range stores {
+			if st != mine && reachesAfter(mine, st) && reachesAfter(st, ld) {
+				return false
+			}
+		}
+		return true
+	}
 }
 
 // errorsIsCall decodes cond = errors.Is(e, target): returns e, the target value.
